@@ -60,10 +60,10 @@ func vxSameRecording(tag string, f1 []vxFlush, a1 []vxAppend, f2 []vxFlush, a2 [
 	}
 }
 
-var vxChunkMenu = []int{1, 3, 1019, 1020, 1021, 1024, 4096}
+var vxChunkMenu = []int{1, 3, 1020, 1021, 4096}
 
 func H08aQ() { h08a(2, false) }
-func H08aT() { h08a(4, true) }
+func H08aT() { h08a(3, true) }
 
 // h08a: real bufSize; content = P spaces + W symbolic bytes + "\n"; the reader fragments
 // arbitrarily (menu) and may deliver the last chunk together with EOF.  Padding and
